@@ -1,4 +1,5 @@
 import HvsrVerif.Props.C04
+import HvsrVerif.Props.C01
 import HvsrVerif.Proofs.DFTLemmas
 /-!
 # C04 (continued) — the rotation-invariant combinations do not depend on the sensor orientation (composed)
@@ -164,5 +165,27 @@ theorem rotinv_hvsr (m : Combine) (hm : RotInv m) (cfg : ProcCfg ℝ) (n : ℕ) 
     exact combine_of_power m hm _ _ _ _ (binPow_nonneg _ _ _ _) (binPow_nonneg _ _ _ _) (binPow_nonneg _ _ _ _)
       (binPow_nonneg _ _ _ _) (rotinv_power cfg.width _ _ hcs r.ns r.ew hlen n k)
   rw [hrow]
+
+end HV.C04
+
+namespace HV.C04
+open HV Classical Real
+
+/-- **180° periodicity, through the whole chain**: the single-azimuth HVSR at `a + 180°` is the one at `a`. -/
+theorem singleAz_hvsr_180 (az : ℝ) (cfg : ProcCfg ℝ) (n : ℕ) (r : Rec3 ℝ) :
+    hvsrRow (.singleAz (az + 180)) cfg n r = hvsrRow (.singleAz az) cfg n r := by
+  unfold hvsrRow
+  have e : az + 180 - r.deg = (az - r.deg) + 180 := by ring
+  simp only [e, singleAz_series_180, HV.C01.taper_homog, HV.C01.ampSpec_homog, abs_neg, abs_one, one_mul, List.map_id']
+
+/-- **Single azimuth = north component after orienting the sensor to that azimuth**, through the whole chain: the
+projection series used by `hvsrRow (.singleAz a)` is the `ns` series of `orientRec r.deg a r`. -/
+theorem singleAz_series_is_oriented_north (az : ℝ) (r : Rec3 ℝ) :
+    singleAzimuthSeries (az - r.deg) r.ns r.ew = (orientRec r.deg az r).ns := by
+  rw [orientRec_ns]
+  unfold singleAzimuthSeries lin2 singleAzimuth
+  simp only [cos_real, sin_real]
+  apply List.map_congr_left
+  intro p _; ring
 
 end HV.C04
